@@ -19,7 +19,7 @@
 From Coq Require Import List NArith.
 From SWH.lib Require Import Bytes.
 From SWH.model Require Import Merkle.
-From SWH.proofs Require Import MerkleBase MerkleAcyclic MerkleInv MerkleStep MerkleTotal MerkleWitness.
+From SWH.proofs Require Import MerkleBase MerkleAcyclic MerkleInv MerkleStep MerkleTotal MerkleForce MerkleWitness.
 Import ListNotations.
 Local Open Scope nat_scope.
 
@@ -92,6 +92,72 @@ Theorem C10_acyclic_no_self_reach : forall s : heap, acyclic s ->
 Proof. exact acyclic_no_self_reach. Qed.
 Print Assumptions C10_acyclic_no_self_reach.
 
+(* Out-of-band writes and forced updates.  [OWrite n d] is `node.data = d`: the
+   library is not told, nothing is invalidated (a guarded history contains none:
+   guard (OWrite _ _) = False, so the theorems above are about histories made
+   of the library's own operations).  [InvS s] is the part of the invariant
+   that does not speak of hash values (handles, back-links, cached => children
+   cached, derived caches => children cached, collected => cached): a write
+   does not disturb it.  [clean_at NH s m] = every cached value of node m
+   (hash, entries, model object) is the from-scratch value.
+
+   FORCE RESTORES.  From ANY state satisfying InvS - whatever was written behind
+   the library's back - if every node that may hold a stale value is below r
+   or above r, then update_hash(force=True) at r succeeds, returns the
+   from-scratch hash of r, leaves every node below r hashed and un-collected,
+   and re-establishes the whole invariant: all the theorems above apply again
+   from there on.  (A node neither below nor above r - e.g. another root sharing
+   the written node - is not touched and stays stale: nobody told it.) *)
+Theorem C10_force_restores : forall (NH : bytes -> list entry -> bytes) (s : heap) (r : nat),
+  InvS s -> acyclic s -> r < length s ->
+  (forall m, m < length s -> clean_at NH s m \/ Reach s r m \/ Reach s m r) ->
+  let s' := fst (step NH true false s (OForce r)) in
+  InvA NH s' /\
+  (exists hv, snd (step NH true false s (OForce r)) = OutHash hv /\ Fresh NH s' r hv) /\
+  (forall m, Reach s r m -> notcoll s' m /\ hashed_at s' m) /\
+  (forall a b, Reach s' a b <-> Reach s a b).
+Proof. exact force_restores. Qed.
+Print Assumptions C10_force_restores.
+
+(* The invariant is exactly "InvS and every node clean". *)
+Theorem C10_inv_split : forall (NH : bytes -> list entry -> bytes) (s : heap),
+  Inv NH s <-> (InvS s /\ forall m, clean_at NH s m).
+Proof. exact Inv_split. Qed.
+Print Assumptions C10_inv_split.
+
+(* Corollary: in a state of the invariant (e.g. reached by a guarded history),
+   write the data of node n, then force at a node r that every ancestor-or-self
+   of n is below or above (r dominates n: the unique root, ...): the forced hash
+   is fresh, the invariant holds again, and after ANY guarded continuation every
+   hash read / forced update / entries / to_model returns from-scratch values. *)
+Theorem C10_write_force_fresh : forall (NH : bytes -> list entry -> bytes) (s : heap) (n : nat) (d : bytes) (r : nat),
+  InvA NH s -> n < length s ->
+  (forall a, Reach s a n -> Reach s r a \/ Reach s a r) ->
+  let s1 := fst (step NH true false s (OWrite n d)) in
+  let s2 := fst (step NH true false s1 (OForce r)) in
+  (InvA NH s2 /\ exists hv, snd (step NH true false s1 (OForce r)) = OutHash hv /\ Fresh NH s2 r hv) /\
+  forall h o, guarded NH true false s2 h -> guard NH true false (final NH true false s2 h) o ->
+  let t := final NH true false s2 h in
+  let t' := fst (step NH true false t o) in
+  (forall m, m < length t -> o = OHash m \/ o = OForce m ->
+     exists hv, snd (step NH true false t o) = OutHash hv /\ Fresh NH t' m hv /\ Fresh NH t m hv) /\
+  (forall m es, o = OEntries m \/ o = OToModel m -> snd (step NH true false t o) = OutEntries es ->
+     exists x, nth_error t m = Some x /\ FreshKids NH t' (kids x) es).
+Proof.
+  intros NH s n d r IA L Dom s1 s2. split.
+  - destruct (write_force_restores NH s n d r IA L Dom) as (A & B & _). exact (conj A B).
+  - exact (write_force_fresh NH s n d r IA L Dom).
+Qed.
+Print Assumptions C10_write_force_fresh.
+
+(* Non-vacuity: chain a -> b -> c after a collect; c is written, a dominates. *)
+Theorem C10_write_force_satisfiable :
+  let s := final NH0 true false [] h_chain in
+  guarded NH0 true false [] h_chain /\ 2 < length s /\ Reach s 0 2 /\
+  (forall a, Reach s a 2 -> Reach s 0 a \/ Reach s a 0).
+Proof. exact write_force_satisfiable. Qed.
+Print Assumptions C10_write_force_satisfiable.
+
 (* "The" value computed from scratch: Fresh is functional. *)
 Theorem C10_fresh_unique : forall (NH : bytes -> list entry -> bytes) (s : heap),
   (forall n h, Fresh NH s n h -> forall h', Fresh NH s n h' -> h = h') /\
@@ -133,9 +199,9 @@ Theorem C10_falsy_hash_refuted_old :
 Proof. exact falsy_hash_refuted_old. Qed.
 Print Assumptions C10_falsy_hash_refuted_old.
 
-(* Non-vacuity: a 23-step history building a diamond whose two middle nodes are
+(* Non-vacuity: a 29-step history building a diamond whose two middle nodes are
    structurally equal and share a child (parents recorded [p2; p1]), with bulk
-   update, delete, forced update, collects and a reset, satisfies every guard. *)
+   update, delete, forced update, collects, a reset and a partial reset, satisfies every guard. *)
 Theorem C10_guards_satisfiable :
   guarded NH0 true false [] h_diamond /\
   length (final NH0 true false [] h_diamond) = 5 /\
